@@ -5,6 +5,13 @@ unyt.physical_constants (value + unit string, scaled by vf/ref/uexpr+defs) and i
 vf/ref/uexpr+defs.  Seven sub-monitors: formula, unit label, purity of the copying forms, in-place == copy,
 to_value == to().d, there-and-back, via-intermediate == direct; plus refusal (InvalidUnitEquivalence) of uncovered
 requests and has_equivalent/list_equivalencies against the reference membership table.
+
+Special values in the DATA are a workload dimension of their own (vf/gen/c09_special.py: exact zeros, -0.0, negative numbers, +-inf, NaN,
+numbers next to the under/overflow threshold, numbers on/beyond a domain edge - as 0-d quantity, size-1 array, whole array, or mixed with
+ordinary elements at the first / last / middle / every other position) through every direction and every call door, judged element by
+element against vf/ref/c09_ieee.py (the published formula evaluated by IEEE arithmetic in several spellings; unjudged where they disagree),
+plus: ordinary neighbours vs an all-ordinary twin, repeat-call determinism under heap poisoning (vf/monitors/c09_heap.py), in-place vs
+copy on every element, to_value, there-and-back and via-intermediate against the formulas applied in turn.
 """
 import contextlib
 import io
@@ -12,7 +19,10 @@ import itertools
 import numpy as np
 from vf import core
 from vf.ref import defs, dims, names, uexpr, equivs
+from vf.ref import c09_ieee as ieee
 from vf.gen import c09_registries as regs
+from vf.gen import c09_special as spg
+from vf.monitors import c09_heap as heap
 from .common import chunks, snap, TAINTED
 
 RULE = ("one evaluation = one sub-monitor verdict on one real call (or call pair): value vs the SI formula, result unit vs requested unit, "
@@ -21,7 +31,10 @@ RULE = ("one evaluation = one sub-monitor verdict on one real call (or call pair
         "list_equivalencies vs the reference membership.  distinct cell = (sub-monitor, equivalence, from-kind, to-kind, entry point, "
         "dtype, container kind) for call-level monitors and (formula, equivalence, from-kind, to-kind, input unit, target unit) for the "
         "unit grid, counted only for non-zero finite inputs inside the equivalence's domain; every call-level monitor is evaluated both on operands of "
-        "the default registry and on operands bound to a fresh non-default registry (cell gets 'reg=<registry class>')")
+        "the default registry and on operands bound to a fresh non-default registry (cell gets 'reg=<registry class>').  special-data family: one "
+        "evaluation = one sub-monitor verdict on one real call on data holding special elements (element-wise formula classes, purity, unit, "
+        "determinism of a repeated call, neighbours vs the all-ordinary twin, in-place vs copy, to_value, there-and-back, path); distinct cell = "
+        "('special-<monitor>', entry point, equivalence, from-kind, to-kind, dtype, container kind, data class, placement)")
 ASSUMPTIONS = (
     "vf/ref/equivs.py: E=kT; E=mc^2; E=h nu=hc/lambda=hc k; gamma=1/sqrt(1-v^2/c^2); R=2GM/c^2; lambda=h/(mc); rho=mu mH n; "
     "E=kT=mu mH cs^2/gamma; F=sigma T^4 - evaluated in longdouble",
@@ -69,6 +82,25 @@ ASSUMPTIONS = (
     "or in-place) on data still written in a re-valued DEFAULT symbol has ONE key ('class-api-forms', no equivalence / direction): the mechanism (a "
     "constant of the default registry is the left operand, the symbol is resolved in the left operand's registry) depends on neither, and the set of "
     "equivalences in which a run sees it depends on the seed (first keyed per equivalence: seed 3 raised two unlisted siblings)",
+    "special data (vf/gen/c09_special.py): 'the formula evaluated on the same element' is taken in IEEE arithmetic (k/0 = inf, k/inf = 0, inf*k = inf, "
+    "sqrt(negative) = NaN, NaN in -> NaN out); vf/ref/c09_ieee.py evaluates several algebraically equal spellings of each direction in longdouble and "
+    "float64 and gives an element a verdict class (finite value / NaN / +inf / -inf / zero) only where all agree (gamma = inf, flux = -inf, T = 1e80 K "
+    "are unjudged); the sign of a zero result is never judged, and an infinity produced by a zero element may have either sign (-0.0 == 0.0 as numbers)",
+    "special data: a finite non-zero element is formula-judged only where its reading, the powers of it the formula takes, its SI value and the result "
+    "(SI and reading) lie within 1e-290..1e290 (1e-30..1e30 for 4-byte data), its class survives a relative move of 1e-9 (1e-4), and 64 eps x condition "
+    "< 0.25: under/overflow on the way depends on the order of evaluation, which the property does not fix; such elements still take part in "
+    "determinism, neighbours-vs-twin and (8-byte data) in-place-vs-copy",
+    "special data: a conversion is an elementwise map, so the ordinary elements of a mixed array are judged twice: against the formula, and against "
+    "the same call on an all-ordinary twin array (8 eps x condition; NumPy's power/sqrt loops may pick another code path when a lane holds a special value)",
+    "special data: determinism = the same call on an equal fresh operand, after freed buffers of the result's size were filled with a different "
+    "sentinel, gives bit-identical numbers (a difference only in the bits of equal values - sign of zero, NaN payload - is noted)",
+    "special data: there-and-back and via-intermediate are judged against the formulas applied in turn (0 -> inf -> 0 returns the original; a negative "
+    "sound speed comes back positive and that is the formulas' answer); via-intermediate only on elements where the composed formulas give what the "
+    "direct formula gives",
+    "special data, 4-byte operands: formula verdicts of a call are dropped when the tap on the same call on the all-ordinary twin saw an intermediate or "
+    "conversion factor leave the float32 normal range (0 x inf-factor = NaN in a float32 buffer is the narrow-buffer class, not this one); tiny/huge "
+    "float32 elements are not formula-judged; there-and-back/paths are not driven; int64 operands hold only zero / negative / integer edge values; offset "
+    "temperature scales are not used in this family",
     "only non-coherent named default symbols (Msun, ft, eV, R, ...) are re-valued, never a symbol another token of the same case is derived from "
     "(prefixed/aliased spelling), never SI/CGS base or coherent derived units; registries with re-valued default symbols run one case per child "
     "process: OPEN ITEM - two such registries in one process history showed a 1e-12 via-intermediate/direct disagreement (spectral, mil -> keV -> "
@@ -326,6 +358,14 @@ def batches(tier, seed):
             for i, c in enumerate(chunks(rc, k)):
                 b.append((f"reg/{eq}/s{si}/{i}", ("conv", {"seed": sd, "cases": c})))
             mixed += r.sample(rc, min(len(rc), 8 if tier == "quick" else 30))
+            sc = []
+            for (e, a, bb) in all_pairs():          # special values in the data: every direction x data class x placement x container kind
+                if e == eq and si == 0:             # (enumerated, so the extra derived seeds of the thorough tier do not repeat it)
+                    sc += special_cases(tier, sd, eq, a, bb)
+            r.shuffle(sc)
+            k = max(1, len(sc) // (45 if tier == "quick" else 110))
+            for i, c in enumerate(chunks(sc, k)):
+                b.append((f"special/{eq}/s{si}/{i}", ("special", {"seed": sd, "cases": c})))
     r = core.rng(seed, "mixed")
     r.shuffle(mixed)                       # all nine equivalences interleaved in one process history
     for i, c in enumerate(chunks(mixed, 4 if tier == "quick" else 12)):
@@ -888,6 +928,444 @@ def run_case(unyt, rec, K, case, r):
                               f"{flat(shaped, bad)!r} {uin} -> {uc} -> {uout} gives {flat(vg, bad)!r} {via.units}; direct gives {flat(direct, bad)!r} {results['to'][3]} ({eq}, {kw})", case_d)
 
 
+# ------------------------------------------------------------------------------------------------ special values in the data
+SPECIAL_DTS = ("f8", "f8", "f4", "f8", "i8")
+SP_MONITORS = ("formula", "neighbours", "twin", "purity", "unit", "determinism", "to_value", "inplace-vs-copy", "roundtrip", "path")
+
+
+def special_cases(tier, seed, eq, a, b):
+    """special-data cases of one direction (vf/gen/c09_special.py): data class x placement x container kind x dtype, units drawn from the
+    whole pool of each member, every fifth case on operands bound to a registry with a non-MKS unit system"""
+    r = core.rng(seed, "special", eq, a, b)
+    pin, pout = POOL[a], POOL[b]
+    combos = spg.cases_for(tier, r, SPECIAL_DTS)
+    if a == b:                                     # same-dimension shortcut: an ordinary unit conversion; a thinner slice
+        combos = [c for c in combos if c[0] in ("zero", "inf", "nan", "mixed", "negative")][::3 if tier == "quick" else 2]
+    cases = []
+    i = 200000
+    for dc, pl, kd, dt in combos:
+        if dc not in spg.classes_for(dt, eq):
+            dt = "f8"
+        if dc not in spg.classes_for(dt, eq):
+            continue
+        uin, uout = pin[r.randrange(len(pin))], pout[r.randrange(len(pout))]
+        spec = None
+        if i % 5 == 0:
+            spec, uin, uout = regs.gen_spec(r, "nonmks-system", a, b, uin, uout, i // 5)
+        cases.append([eq, a, b, uin, uout, dt, kd, kw_for(eq, r, i), i, spec, dc, pl]); i += 1
+    return cases
+
+
+def shape_like(kind, v):
+    """a 1-d vector arranged the way build() arranges the readings of a container kind"""
+    v = np.asarray(v)
+    if kind == "q":
+        return v[:1].reshape(())
+    if kind == "one":
+        return v[:1]
+    if kind == "a2":
+        return v.reshape(2, -1)
+    if kind == "viewT":
+        return v.reshape(-1, 2).T
+    return v
+
+
+def sp_leg(eq, a, b, xsi, sin, sout, K, kw, narrow):
+    """expectation of one conversion leg on arbitrary data: class per element (vf/ref/c09_ieee.py), SI value, condition number.  Finite
+    non-zero elements are judged only where the reading, its powers in the formula, the SI value and the result (SI and reading) stay well
+    inside the range of the float type (an overflow / underflow on the way depends on the order of evaluation, which the property does not fix)"""
+    xsi = np.asarray(xsi, dtype=equivs.LD)
+    cls, ysi = ieee.expect(eq, a, b, xsi, K, margin=1e-4 if narrow else 1e-9, **kw)
+    lo, hi = (equivs.LD(1e-30), equivs.LD(1e30)) if narrow else (equivs.LD(1e-290), equivs.LD(1e290))
+    deg = equivs.degree(eq, a, b)
+    with np.errstate(all="ignore"):
+        finite_in = np.isfinite(xsi) & (xsi != 0)
+        ok = np.ones(xsi.shape, dtype=bool)
+        ax = np.abs(xsi)
+        for v in (ax / abs(sin), (ax / abs(sin)) ** deg, ax, ax ** deg):
+            ok &= (v > lo) & (v < hi)
+        ay = np.abs(ysi)
+        for v in (ay, ay / abs(sout)):
+            ok &= (cls != ieee.FINITE) | ((v > lo) & (v < hi))
+        if narrow and not (lo < abs(sin) < hi and lo < abs(sout) < hi):
+            ok[...] = False
+        cls = np.where(finite_in & ~ok, ieee.UNJUDGED, cls)
+        if narrow:                                  # a finite result of a special element (v=0 -> gamma=1) is fine; finite data needs the range
+            cls = np.where(~finite_in & (cls == ieee.FINITE) & ~((ay / abs(sout) > lo) & (ay / abs(sout) < hi)), ieee.UNJUDGED, cls)
+        _, cond, _ = equivs.convert(eq, a, b, np.where(finite_in, xsi, equivs.LD(1)), K, **kw)
+        cond = np.where(np.isfinite(cond) & finite_in, cond, equivs.LD(1))
+        if a == b:
+            cond = np.ones_like(cond)
+        e = EPS["f4"] if narrow else EPS["f8"]
+        cls = np.where((cls == ieee.FINITE) & (64 * e * cond > 0.25), ieee.UNJUDGED, cls)
+    return cls.astype(np.int8), ysi, cond
+
+
+def sp_feed(cls, ysi):
+    """the SI data a second leg starts from: what the first leg's class says (unjudged stays unjudged through NaN + a mask)"""
+    y = np.array(ysi, dtype=equivs.LD, copy=True)
+    y[cls == ieee.NAN] = np.nan
+    y[(cls == ieee.PINF) | (cls == ieee.ANYINF)] = np.inf
+    y[cls == ieee.NINF] = -np.inf
+    y[cls == ieee.ZERO] = 0
+    return y
+
+
+def same_class(a_, b_, tol):
+    """elementwise 'same numbers' for arbitrary data: both NaN, the same infinity, or finite within tol*|b| (+ exact equality); tol is a scalar
+    or has one entry per element -> (ok, first bad index)"""
+    a_ = np.asarray(a_, dtype=equivs.LD).reshape(-1)
+    b_ = np.asarray(b_, dtype=equivs.LD).reshape(-1)
+    if a_.shape != b_.shape:
+        return False, 0
+    tol = np.broadcast_to(np.asarray(tol, dtype=equivs.LD), a_.shape)
+    with np.errstate(all="ignore"):
+        ok = (np.isnan(a_) & np.isnan(b_)) | (a_ == b_) | (np.isfinite(a_) & np.isfinite(b_) & (np.abs(a_ - b_) <= tol * np.abs(b_)))
+    if np.all(ok):
+        return True, None
+    return False, int(np.argmin(ok))
+
+
+def group_scopes(bad, good):
+    """[(scope, entries)] - a failure shared by all copying / all in-place / all forms is one mechanism"""
+    cp_f = [e for e in COPY_ENTRIES if e in bad]; cp_p = [e for e in COPY_ENTRIES if e in good]
+    ip_f = [e for e in INPLACE_ENTRIES if e in bad]; ip_p = [e for e in INPLACE_ENTRIES if e in good]
+    if len(cp_f) >= 2 and not cp_p and len(ip_f) >= 2 and not ip_p:
+        return [("all-forms", cp_f + ip_f)]
+    groups = [("all-copying-forms", cp_f)] if (len(cp_f) >= 2 and not cp_p) else [(e, [e]) for e in cp_f]
+    groups += [("all-in-place-forms", ip_f)] if (len(ip_f) >= 2 and not ip_p) else [(e, [e]) for e in ip_f]
+    return groups
+
+
+def run_special(unyt, rec, K, case, r):
+    """one special-data case: every call door on the same data, judged element by element against the IEEE evaluation of the formula;
+    then ordinary neighbours vs an all-ordinary twin, determinism under heap poisoning, in-place vs copy, to_value, there-and-back, paths"""
+    eq, a, b, uin, uout, dt, kind, kw, idx, spec, dclass, placement = case
+    pair = f"{a}->{b}"
+    reg = U = None
+    ksuf, rcell, rdesc = "", (), ""
+    if spec is not None:
+        try:
+            reg = regs.build_registry(unyt, spec)
+        except Exception as e:
+            rec.violation(f"C09:registry-construction:{spec['cls']}:{type(e).__name__}", f"{regs.describe(spec)} raised {type(e).__name__}: {str(e)[:200]}", spec)
+            return
+        ksuf, rcell, rdesc = ":reg=" + spec["cls"], ("reg=" + spec["cls"],), f"[operands bound to {regs.describe(spec)}] "
+        if spec["tu"] == "own":
+            U = lambda s_: unyt.Unit(s_, registry=reg)      # noqa: E731
+        rec.count("special:reg-cases")
+    rin, rout = RefUnit.get(uin), RefUnit.get(uout)
+    if rin.tainted or rout.tainted or rin.offset or rout.offset:
+        rec.count("skipped:special:tainted-or-offset-unit"); return
+    ordinary = gen_readings(eq, a, rin, dt, r, NVAL, equivs.degree(eq, a, b))
+    if ordinary is None:
+        rec.count("skipped:special:no-ordinary-values:" + dt); return
+    if kind in ("q", "one"):
+        placement = "all"
+    arr, labels1 = spg.place(ordinary, dclass, placement, dt, r, spg.edge_readings(eq, a, rin.scale))
+    order = shape_like(kind, np.arange(arr.size)).reshape(-1)
+    labels = [labels1[i] for i in order]
+    is_ord = np.array([l == "ordinary" for l in labels])
+    _, _, shaped = build(unyt, arr, uin, kind, reg)
+    narrow = dt == "f4"
+    e_in = EPS["f4"] if narrow else EPS["f8"]
+    xsi = rin.to_si(np.asarray(shaped).astype(equivs.LD))
+    cls, ysi, cond = sp_leg(eq, a, b, xsi, rin.scale, rout.scale, K, kw, narrow)
+    if narrow:                                      # extreme finite float32 elements are not what the tap on the twin call sees
+        cls = np.where(np.array([l in ("tiny", "huge") for l in labels]).reshape(np.shape(cls)), ieee.UNJUDGED, cls).astype(np.int8)
+    fcls, fcond = cls.reshape(-1), cond.reshape(-1)
+    if not np.any(fcls != ieee.UNJUDGED):
+        rec.count("special:case-with-no-judged-element")
+    case_d = {"eq": eq, "from": a, "to": b, "uin": uin, "uout": uout, "dtype": dt, "kind": kind, "kw": kw, "data_class": dclass, "placement": placement,
+              "readings": [repr(v) for v in np.asarray(shaped, dtype="f8").reshape(-1).tolist()], "element_labels": labels,
+              "expected_class": [ieee.NAMES[int(c)] for c in fcls]}
+    if spec is not None:
+        case_d["registry"] = spec
+    rec.reach(f"special:{eq}:{pair}")
+    rec.sample(case_d, limit=1)
+    mixed_arr = bool(np.any(is_ord)) and not bool(np.all(is_ord))
+    cellbase = (eq, a, b, dt, kind, dclass, placement)
+
+    def viol(key, desc):
+        rec.violation(key + ksuf, rdesc + desc, case_d)
+
+    def okc(mon, *cell):
+        rec.ok(("special-" + mon,) + cell + rcell)
+        rec.count("sub:special:" + mon)
+
+    def want_in(lab):
+        w = lab.from_si(ysi)
+        bd = ((64 * (EPS["f4"] if narrow else EPS["f8"]) + rin.utol) * cond + rout.utol + (lab.utol if lab is not rout else 0.0)) * np.abs(w)
+        return w, bd
+
+    def elem(i, v):
+        return repr(np.asarray(v, dtype="f8").reshape(-1)[i].item())
+
+    entries = [e for e in COPY_ENTRIES + INPLACE_ENTRIES if not (a == b and e.startswith("Equivalence"))]
+    r.shuffle(entries)
+    det_inplace = r.choice(INPLACE_ENTRIES[:3])
+    results, failed, raised, passed = {}, {}, {}, set()
+    twin_bad, twin_good = {}, set()
+    det_bad, det_good = {}, set()
+    for entry in entries:
+        inplace = entry in INPLACE_ENTRIES
+        x, base, _ = build(unyt, arr, uin, kind, reg)
+        before = snap(x)
+        bbefore = snap(base) if base is not None else None
+        heap.poison(heap.sizes_for(x), spg.SENTINELS[0])
+        try:
+            with np.errstate(all="ignore"):
+                res = call_entry(unyt, entry, x, uout, eq, kw, U)
+            exc = None
+        except Exception as e:
+            res, exc = None, e
+        rec.count("calls:special:" + entry)
+        if exc is not None:
+            raised[entry] = (type(exc).__name__, f"{eq} {uin}->{uout} via {entry} on {dclass} data ({dt}, {kind}, {placement}, {kw}) raised {type(exc).__name__}: {str(exc)[:200]}")
+            continue
+        if res is None:
+            viol(f"C09:returns-none:{eq}:{pair}:{entry}", f"{eq} {uin}->{uout} via {entry} ({dt}, {kind}) on {dclass} data returned None")
+            continue
+        if not inplace:
+            after = snap(x)
+            what = None
+            if after != before:
+                what = "values" if after[1] != before[1] else ("units" if after[4] != before[4] else "dtype-or-shape")
+            elif base is not None and snap(base) != bbefore:
+                what = "base-of-view"
+            if what:
+                viol(f"C09:input-mutated:{eq}:{pair}:{entry}:{what}:special-data", f"{entry} is a copying form but changed its input ({what}) on {dclass} data: {eq} {uin}->{uout}, input now {x!r}")
+            else:
+                okc("purity", entry, *cellbase)
+        if entry == "to_value":
+            if hasattr(res, "units"):
+                viol(f"C09:to_value:{eq}:{pair}:not-bare", f"to_value returned {type(res).__name__} with units"); continue
+            got, rlab = np.asarray(res), rout
+        else:
+            rlab = result_unit(res)
+            if rlab is None:
+                viol(f"C09:unit:{eq}:{pair}:{entry}:unreadable", f"result of {entry} carries no readable unit: {res!r}"); continue
+            if rlab.tainted:
+                rec.count("skipped:tainted-result-label"); continue
+            got = np.asarray(res.d)
+            free = entry.startswith("Equivalence")
+            if rlab.dim != rout.dim or (not free and abs(rlab.scale / rout.scale - 1) > 1e-9):
+                viol(f"C09:unit:{eq}:{pair}:{entry}:{'dimension' if rlab.dim != rout.dim else 'scale'}:special-data",
+                     f"{eq} {uin}->{uout} via {entry} on {dclass} data: result is labelled {res.units}"); continue
+            okc("unit", entry, *cellbase)
+        if got.shape != np.shape(shaped):
+            viol(f"C09:result-shape:{eq}:{pair}:{entry}", f"{entry}: result shape {got.shape}, input shape {np.shape(shaped)}"); continue
+        # ---- the same call on the all-ordinary twin: neighbours of special elements must not notice them (a conversion is an elementwise
+        #      map); for 4-byte data the tap on the twin call says whether a float32 buffer could hold every intermediate and factor
+        gt, nbad = None, False
+        if mixed_arr or narrow:
+            xt, _, tshaped = build(unyt, ordinary, uin, kind, reg)
+            tap = UfuncTap(unyt)
+            try:
+                with tap, np.errstate(all="ignore"):
+                    rest = call_entry(unyt, entry, xt, uout, eq, kw, U)
+                gt = np.asarray(rest) if entry == "to_value" else np.asarray(rest.d)
+                nbad = tap.bad
+                if narrow:
+                    with np.errstate(all="ignore"):
+                        nbad = nbad or not np.all(np.isfinite(gt)) or bool(np.any(np.abs(gt) < F4_TINY))
+            except Exception:
+                gt, nbad = None, True           # an ordinary case that raises is the ordinary workload's subject
+        results[entry] = (got.copy(), rlab, str(getattr(res, "units", "")), narrow and nbad)
+        if narrow and nbad:
+            rec.note("narrow-buffer-range:special:" + entry)
+        # ---- formula, element by element
+        want, bd = want_in(rlab)
+        jcls = cls if not (narrow and nbad) else np.full(np.shape(cls), ieee.UNJUDGED, dtype=np.int8)
+        if narrow or (got.dtype.kind == "f" and got.dtype.itemsize == 4):
+            with np.errstate(all="ignore"):     # readings of the delivered label must fit float32 too
+                aw = np.abs(want)
+                jcls = np.where((jcls == ieee.FINITE) & ~((aw > 1e-30) & (aw < 1e30)), ieee.UNJUDGED, jcls)
+        nj, badi, gotcls = ieee.judge(got, jcls, want, bd)
+        if badi is None:
+            if nj:
+                okc("formula", entry, *cellbase)
+                passed.add(entry)
+                fj = np.asarray(jcls).reshape(-1)
+                for lab_ in {labels[i] for i in range(len(labels)) if fj[i] != ieee.UNJUDGED and labels[i] != "ordinary"}:
+                    rec.count("special:class:" + lab_)
+                if dclass in ("zero", "mixed") and any(labels[i] == "zero" and fj[i] != ieee.UNJUDGED for i in range(len(labels))):
+                    rec.count(f"special:zero:{eq}:{pair}:{'in-place' if inplace else 'copy'}")
+                nn = int(np.sum(is_ord & (fj != ieee.UNJUDGED)))
+                if mixed_arr and nn:
+                    rec.count("sub:special:neighbours", nn)
+                rec.count("special:door:" + entry)
+            else:
+                rec.count("special:call-with-no-judged-element")
+        else:
+            failed[entry] = (labels[badi], f"{eq} {uin}->{uout} via {entry} ({dt}, {kind}, {dclass} data placed {placement}, {kw}): element {badi} = {elem(badi, shaped)} {uin} "
+                             f"({labels[badi]}) -> {elem(badi, got)} {uout if rlab is rout else rlab.s}; the formula evaluated on that element gives "
+                             f"{ieee.NAMES[int(np.asarray(jcls).reshape(-1)[badi])]}" + (f" ({float(np.asarray(want).reshape(-1)[badi])!r})" if np.asarray(jcls).reshape(-1)[badi] == ieee.FINITE else "")
+                             + f"; whole result {np.asarray(got, dtype='f8').reshape(-1).tolist()!r}")
+        # ---- determinism: the same call on a fresh operand after poisoning the heap with another number
+        if not inplace or entry == det_inplace:
+            x2, _, _ = build(unyt, arr, uin, kind, reg)
+            heap.poison(heap.sizes_for(x2), spg.SENTINELS[1])
+            try:
+                with np.errstate(all="ignore"):
+                    res2 = call_entry(unyt, entry, x2, uout, eq, kw, U)
+                got2 = np.asarray(res2) if entry == "to_value" else np.asarray(res2.d)
+                if heap.same_bits(got, got2):
+                    det_good.add(entry)
+                    okc("determinism", entry, *cellbase)
+                else:
+                    okd, bi = same_class(got, got2, 0)
+                    if okd:
+                        rec.note("special:repeat-call-differs-only-in-bits-of-equal-values")     # -0.0 vs 0.0 or NaN payload
+                        okc("determinism", entry, *cellbase)
+                    else:
+                        det_bad[entry] = (labels[bi], f"{eq} {uin}->{uout} via {entry} ({dt}, {kind}, {dclass} data placed {placement}): two calls on equal fresh operands gave "
+                                          f"{elem(bi, got)} and {elem(bi, got2)} for element {bi} = {elem(bi, shaped)} ({labels[bi]}); results {np.asarray(got, dtype='f8').reshape(-1).tolist()!r} "
+                                          f"vs {np.asarray(got2, dtype='f8').reshape(-1).tolist()!r}")
+            except Exception as e2:
+                det_bad[entry] = ("raises", f"second call of {entry} on an equal fresh operand raised {type(e2).__name__}: {str(e2)[:150]}")
+        # ---- ordinary neighbours vs the all-ordinary twin
+        if mixed_arr and gt is not None and gt.shape == got.shape:
+            sel = is_ord
+            tol = 8 * (EPS["f4"] if (narrow or 4 in (got.dtype.itemsize, gt.dtype.itemsize)) else EPS["f8"]) * fcond[sel]
+            okt, bi = same_class(got.reshape(-1)[sel], gt.reshape(-1)[sel], tol)
+            if okt:
+                twin_good.add(entry)
+                okc("twin", entry, *cellbase)
+            else:
+                gi = int(np.flatnonzero(sel)[bi])
+                twin_bad[entry] = (f"{eq} {uin}->{uout} via {entry} ({dt}, {kind}, {dclass} data placed {placement}): ordinary element {gi} = {elem(gi, shaped)} gives {elem(gi, got)} "
+                                   f"next to special elements but {elem(gi, gt)} in an array of ordinary elements only")
+    for scope, es in group_scopes(failed, passed):
+        labs = [failed[e_][0] for e_ in es]
+        lab_ = max(sorted(set(labs)), key=labs.count)
+        viol(f"C09:special-formula:{eq}:{pair}:{scope}:{lab_}" + (":" + dt if dt != "f8" else ""), failed[es[0]][1] + (f" [same for {len(es)} entry points: {', '.join(es)}]" if len(es) > 1 else ""))
+    for scope, es in group_scopes(det_bad, det_good):
+        viol(f"C09:special-determinism:{eq}:{pair}:{scope}:{det_bad[es[0]][0]}", det_bad[es[0]][1] + (f" [same for {', '.join(es)}]" if len(es) > 1 else ""))
+    for scope, es in group_scopes(twin_bad, twin_good):
+        viol(f"C09:special-neighbours:{eq}:{pair}:{scope}:{dclass}", twin_bad[es[0]] + (f" [same for {', '.join(es)}]" if len(es) > 1 else ""))
+    if raised:
+        ran = set(results)
+        for cname in sorted({c for c, _ in raised.values()}):
+            bad = {e_: v for e_, v in raised.items() if v[0] == cname}
+            good = ran | {e_ for e_ in raised if raised[e_][0] != cname}
+            for scope, es in group_scopes(bad, good):
+                viol(f"C09:special-raises:{eq}:{pair}:{scope}:{cname}:{dclass}" + (":" + dt if dt != "f8" else ""), raised[es[0]][1] + (f" [same for {len(es)} entry points: {', '.join(es)}]" if len(es) > 1 else ""))
+    forward_ok = "to" in passed
+    # ---- to_value == to().d
+    if "to_value" in results and "to" in results:
+        g1, g2 = results["to_value"][0], results["to"][0]
+        if g1.shape == g2.shape and np.array_equal(np.asarray(g1, dtype="f8"), np.asarray(g2, dtype="f8"), equal_nan=True):
+            okc("to_value", *cellbase)
+        else:
+            viol(f"C09:to_value:{eq}:{pair}:differs:special-data", f"{dclass} data: to_value({uout!r},{eq!r}) = {g1.tolist()!r} but to(...).d = {g2.tolist()!r}")
+    if not forward_ok:
+        rec.count("special:dependent-monitors-skipped:forward-failed-or-unjudged")
+        return
+    # ---- in-place == copy, every element (also the unjudged ones) for 8-byte data
+    cg, cl, cu, cnb = results["to"]
+    ivc_bad, ivc_good = {}, []
+    for entry in INPLACE_ENTRIES[:3]:
+        if entry not in results:
+            continue
+        ig, il, iu, inb = results[entry]
+        if cnb or inb:
+            rec.note("narrow-buffer-range:special:inplace-vs-copy"); continue
+        if iu != cu:
+            viol(f"C09:inplace-vs-copy:{eq}:{pair}:{entry}:unit:special-data", f"{dclass} data: in-place form ends in {iu!r}, copying form in {cu!r}"); continue
+        nar = narrow or 4 in (ig.dtype.itemsize, cg.dtype.itemsize)
+        sel = (fcls != ieee.UNJUDGED) if nar else np.ones(fcls.shape, dtype=bool)
+        if not np.any(sel):
+            continue
+        okv, bi = same_class(ig.reshape(-1)[sel], cg.reshape(-1)[sel], 8 * (EPS["f4"] if nar else EPS["f8"]) * fcond[sel])
+        if okv:
+            okc("inplace-vs-copy", entry, *cellbase); ivc_good.append(entry)
+        else:
+            gi = int(np.flatnonzero(sel)[bi])
+            ivc_bad[entry] = (labels[gi], f"{eq} {uin}->{uout} ({dt}, {kind}, {dclass} data placed {placement}, {kw}): element {gi} = {elem(gi, shaped)} ({labels[gi]}): in-place {entry} gives {elem(gi, ig)}, copying to() gives {elem(gi, cg)}")
+    if len(ivc_bad) >= 2 and not ivc_good:
+        k0 = next(iter(ivc_bad))
+        viol(f"C09:special-inplace-vs-copy:{eq}:{pair}:all-in-place-forms:{ivc_bad[k0][0]}", ivc_bad[k0][1] + f" [same for {', '.join(ivc_bad)}]")
+    else:
+        for entry, (lab_, d_) in ivc_bad.items():
+            viol(f"C09:special-inplace-vs-copy:{eq}:{pair}:{entry}:{lab_}", d_)
+    if a == b or narrow:
+        return                  # 4-byte data: each direction is judged on its own above (an in-place chain in a float32 buffer leaves the range)
+    # ---- there and back: the formula of the way back applied to what the formula gave
+    bcls, bsi, bcond = sp_leg(eq, b, a, sp_feed(cls, ysi), rout.scale, rin.scale, K, kw, narrow)
+    bcls = np.where(cls == ieee.UNJUDGED, ieee.UNJUDGED, bcls)
+    with np.errstate(all="ignore"):
+        rt = equivs.roundtrip_cond(eq, a, b, np.where(np.isfinite(xsi) & (xsi != 0), xsi, equivs.LD(1)), K, **kw)
+        rt = np.where(np.isfinite(rt), rt, equivs.LD(4))
+        bcls = np.where((bcls == ieee.FINITE) & (128 * e_in * rt > 0.25), ieee.UNJUDGED, bcls)
+        bwant = bsi / equivs.LD(rin.scale)
+        bbound = (128 * e_in * rt + 4 * (rin.utol + rout.utol)) * np.abs(bwant)
+    for form in ("copy", "inplace"):
+        if form == "inplace" and (dt[1] == "4" or "convert_to_equivalent" not in passed):
+            continue
+        if not np.any(bcls != ieee.UNJUDGED):
+            rec.count("special:roundtrip-with-no-judged-element"); break
+        x, base, _ = build(unyt, arr, uin, kind, reg)
+        try:
+            with np.errstate(all="ignore"):
+                if form == "copy":
+                    back = x.to(uout, eq, **kw).to(uin, eq, **kw)
+                else:
+                    x.convert_to_equivalent(uout, eq, **kw)
+                    x.convert_to_equivalent(uin, eq, **kw)
+                    back = x
+        except Exception as e:
+            viol(f"C09:special-roundtrip:{eq}:{a}->{b}->{a}:{form}:raises:{type(e).__name__}:{dclass}", f"{uin}->{uout}->{uin} ({form}) on {dclass} data raised {type(e).__name__}: {str(e)[:200]}")
+            continue
+        rl = result_unit(back)
+        if rl is None or rl.dim != rin.dim or abs(rl.scale / rin.scale - 1) > 1e-9:
+            viol(f"C09:roundtrip:{eq}:{a}->{b}->{a}:{form}:unit:special-data", f"{uin}->{uout}->{uin} ({form}) on {dclass} data ended in {getattr(back, 'units', None)}"); continue
+        bg = np.asarray(back.d)
+        nj, badi, gotcls = ieee.judge(bg, bcls, bwant, bbound)
+        if badi is None:
+            if nj:
+                okc("roundtrip", form, *cellbase)
+        else:
+            viol(f"C09:special-roundtrip:{eq}:{a}->{b}->{a}:{form}:{labels[badi]}",
+                 f"element {badi} = {elem(badi, shaped)} {uin} ({labels[badi]}) -> {uout} -> {uin} ({eq}, {form}, {dt}, {kind}, {kw}) came back as {elem(badi, bg)}; the two formulas "
+                 f"applied in turn give {ieee.NAMES[int(bcls.reshape(-1)[badi])]}" + (f" ({float(bwant.reshape(-1)[badi])!r})" if bcls.reshape(-1)[badi] == ieee.FINITE else ""))
+    # ---- via an intermediate member: judged where the two formulas applied in turn give what the direct formula gives
+    for cmem in equivs.MEMBERS[eq]:
+        if cmem in (a, b):
+            continue
+        pc_ = POOL[cmem]
+        uc = pc_[r.randrange(len(pc_))]
+        rc = RefUnit.get(uc)
+        if rc.tainted or rc.offset:
+            continue
+        c1, y1, cd1 = sp_leg(eq, a, cmem, xsi, rin.scale, rc.scale, K, kw, narrow)
+        c2, y2, cd2 = sp_leg(eq, cmem, b, sp_feed(c1, y1), rc.scale, rout.scale, K, kw, narrow)
+        with np.errstate(all="ignore"):
+            same = (c2 == cls) | ((cls == ieee.ANYINF) & ((c2 == ieee.PINF) | (c2 == ieee.NINF)))
+            agree = (c1 != ieee.UNJUDGED) & same & (cls != ieee.UNJUDGED) & ((cls != ieee.FINITE) | (np.abs(y2 - ysi) <= 1e-9 * np.abs(ysi)))
+        pcls = np.where(agree, cls, ieee.UNJUDGED)
+        if not np.any(pcls != ieee.UNJUDGED):
+            rec.count("special:path-with-no-judged-element"); continue
+        x, base, _ = build(unyt, arr, uin, kind, reg)
+        try:
+            with np.errstate(all="ignore"):
+                via = x.to(uc, eq, **kw).to(uout, eq, **kw)
+        except Exception as e:
+            viol(f"C09:special-path:{eq}:{a}->{cmem}->{b}:raises:{type(e).__name__}:{dclass}", f"{uin}->{uc}->{uout} on {dclass} data raised {type(e).__name__}: {str(e)[:200]}")
+            continue
+        vg = np.asarray(via.d)
+        w = ysi / equivs.LD(rout.scale)
+        with np.errstate(all="ignore"):
+            pb = (256 * e_in * np.maximum(cond, 1) * np.maximum(cd1, 1) + 4 * (rin.utol + rout.utol + rc.utol)) * np.abs(w)
+        nj, badi, gotcls = ieee.judge(vg, pcls, w, pb)
+        if badi is None:
+            okc("path", cmem, *cellbase)
+        else:
+            viol(f"C09:special-path:{eq}:{a}->{cmem}->{b}:{labels[badi]}",
+                 f"element {badi} = {elem(badi, shaped)} {uin} ({labels[badi]}) -> {uc} -> {uout} gives {elem(badi, vg)}; direct conversion and the formula give "
+                 f"{elem(badi, results['to'][0])} / {ieee.NAMES[int(pcls.reshape(-1)[badi])]} ({eq}, {dt}, {kind}, {kw})")
+
+
 # ------------------------------------------------------------------------------------------------ refusal and membership
 REFUSE_ENTRIES = ("to", "in_units", "to_equivalent", "to_value", "convert_to_units", "convert_to_equivalent", "Equivalence.convert")
 
@@ -1048,6 +1526,11 @@ def worker(batch, rec):
         for case in payload["cases"]:
             r = core.rng(payload["seed"], bid, case[0], case[1], case[2], case[8])
             run_case(unyt, rec, K, case, r)
+    elif kind_ == "special":
+        K = read_constants(unyt)
+        for case in payload["cases"]:
+            r = core.rng(payload["seed"], bid, "special", case[0], case[1], case[2], case[8])
+            run_special(unyt, rec, K, case, r)
     elif kind_ == "refuse":
         run_refuse(unyt, rec, payload)
     elif kind_ == "membership":
@@ -1080,7 +1563,24 @@ def extra(tier, seed, results):
             sub[f"reg:{cls}:{m}"] = counters.get(f"reg:{cls}:{m}", 0)
     for sysname in regs.NONMKS:                # ... and every built-in non-MKS system must have been a registry default
         sub["reg:system:" + sysname] = counters.get("reg:system:" + sysname, 0)
+    # special values in the data: every sub-monitor, every data class, every call door, and an exact zero through every direction in
+    # the copying and the in-place form
+    for m in SP_MONITORS:
+        sub["sub:special:" + m] = counters.get("sub:special:" + m, 0)
+    for lab in ("zero", "neg-zero", "negative", "inf", "neg-inf", "nan", "tiny", "huge", "beyond-edge"):      # at-edge elements are generated but rarely judgeable
+        sub["special:class:" + lab] = counters.get("special:class:" + lab, 0)
+    for e in COPY_ENTRIES + INPLACE_ENTRIES:
+        sub["special:door:" + e] = counters.get("special:door:" + e, 0)
+    zero_missing = []
+    for (eq, a, b) in all_pairs():
+        if a != b:
+            for form in ("copy", "in-place"):
+                if not counters.get(f"special:zero:{eq}:{a}->{b}:{form}", 0):
+                    zero_missing.append(f"{eq}:{a}->{b}:{form}")
+    sub["special:directions-x-forms-with-a-judged-exact-zero"] = 2 * sum(1 for (eq, a, b) in all_pairs() if a != b) - len(zero_missing)
     if not nviol:
+        if zero_missing:
+            raise core.Inconclusive("exact-zero-never-judged-through:" + ",".join(zero_missing[:6]))
         dead = [k for k, v in sub.items() if v == 0]
         if dead:
             raise core.Inconclusive("sub-monitors-never-evaluated:" + ",".join(dead))
@@ -1088,6 +1588,7 @@ def extra(tier, seed, results):
         if missing_pairs:
             raise core.Inconclusive("member-pairs-never-reached:" + ",".join(missing_pairs[:6]))
     return {"sub_monitor_evaluations": sub, "unreached": unreached,
+            "special_data": {k[8:]: v for k, v in counters.items() if k.startswith("special:") and not k.startswith("special:zero:")},
             "registry_cases": {k[10:]: v for k, v in counters.items() if k.startswith("reg:cases:")},
             "monitor_calls": {k[6:]: v for k, v in counters.items() if k.startswith("calls:")},
             "skipped": {k[8:]: v for k, v in counters.items() if k.startswith("skipped:")}}
